@@ -12,7 +12,7 @@ RULE = ("TC28 / TC29 subtype 0 and 1 / TC31 / TC19 messages built from DO-260A/B
         "codes 5..22 x NIC supplement bits x version {None,0,1,2} for the look-ups. Oracle: the encoded values, None exactly for 'no data' "
         "codes, selected heading = (256*sign+N)*180/256 mod 360, is_emergency per emergency state, categories per the DO-260 TC maps, "
         "monotone bounds. non-trivial = sign bit set, subtype-0 frames, 'no data' codes, supplement-resolved categories"
-        ' Also: NIC supplements and the version passed as bool / numpy integers, one constant context per sweep, all non-zero emergency states, RCv only for GNSS-height type codes.')
+        ' Also: NIC supplements and the version passed as bool / numpy integers, one constant context per sweep, all non-zero emergency states, RCv only for GNSS-height type codes, the look-ups of a position message called after the operational status message of the same aircraft (any version / supplements) was decoded.')
 ASSUMPTIONS = ["every non-zero TC28 emergency state (incl. 6 'downed aircraft' and the reserved 7) counts as 'an emergency state other than none'",
                "the vertical containment radius RCv of nuc_p exists only for the GNSS-height type codes 20/21 (DO-260 NUCp table)",
                "layout tables in ref/do260.py written from DO-260A (TC29 subtype 0) and DO-260B (subtype 1, TC28, TC31)",
@@ -331,6 +331,15 @@ def chk_lookup(c, note):
     nicb = rng.getrandbits(1)
     me = (tc << 51) | (rng.getrandbits(2) << 49) | (nicb << 48) | rng.getrandbits(48)
     msg = mk(me, rng)
+    heard = rng.getrandbits(2)
+    if heard:
+        # the same aircraft's operational status message was decoded before (the usual order in a receiver: version and supplements first,
+        # then the category of the position message) - possibly announcing other supplements than the ones passed explicitly below
+        ome, _f = L.pack(L.TC31, {"tc": 31, "subtype": rng.choice([0, 0, 1]), "version": rng.choice([1, 1, 2, 0]), "nic_a": rng.choice([1, 1, 0])}, rng)
+        omsg = frames.tohex(frames.df17(int(msg[2:8], 16), ome, ca=5, df=17), 112, rng.choice("UL"))
+        for fn in (A.version, A.nic_s, A.nic_a_c, A.nac_p, A.sil):
+            call(fn, omsg)
+        note.cls("after-operational-status-of-the-same-aircraft")
     if tc == 19:
         for nm, args in (("nuc_p", ()), ("nic_v1", (0,)), ("nic_v1", (1,)), ("nic_v2", (0, 0)), ("nic_v2", (1, 1)), ("nic_b", ())):
             r = call(getattr(A, nm), msg, *args)
